@@ -20,8 +20,12 @@ def applicable(obj):
             calls.append(('replace_var_with_this:' + a, lambda a=a: R.replace_var_with_this(obj, a)))
         # a variable replaced by a FRESHLY built accessor / a parsed accessor chain (what an API user passes)
         from hpl.ast.expressions import HplFieldAccess, HplThisMessage
-        calls.append(('replace_var_reference:v:=zz', lambda: obj.replace_var_reference('v', HplFieldAccess(HplThisMessage(), 'zz'))))
-        calls.append(('replace_var_reference:A:=m.idx[0]', lambda: obj.replace_var_reference('A', _parsed_accessor())))
+        # (only where the variable occurs ONCE: the one replacement object the API takes is otherwise shared between several
+        # positions, and what in-place narrowing through one of them does to the others is outside the listed properties)
+        if _occurrences(obj, 'v') == 1:
+            calls.append(('replace_var_reference:v:=zz', lambda: obj.replace_var_reference('v', HplFieldAccess(HplThisMessage(), 'zz'))))
+        if _occurrences(obj, 'A') == 1:
+            calls.append(('replace_var_reference:A:=m.idx[0]', lambda: obj.replace_var_reference('A', _parsed_accessor())))
         isbool = isinstance(obj, HplPredicate) or obj.data_type == DataType.BOOL
         if isbool:
             calls.append(('split_and', lambda: R.split_and(obj)))
@@ -31,6 +35,14 @@ def applicable(obj):
         calls.append(('negate', lambda: obj.negate()))
         calls.append(('join_self', lambda: obj.join(obj)))
     return calls
+
+
+def _occurrences(obj, name):
+    from hpl.ast.expressions import HplVarReference
+    try:
+        return sum(1 for x in obj.iterate() if isinstance(x, HplVarReference) and x.name == name)
+    except Exception:  # noqa
+        return 0
 
 
 def _parsed_accessor():
